@@ -385,8 +385,14 @@ func (obj *Real32) UnmarshalJSON(data []byte) error {
   r := struct{Value float32; Derivative []float32; Hessian [][]float32}{}
   if err := json.Unmarshal(data, &r); err == nil {
     obj.Value = r.Value
+    // the Hessian must be a square matrix that matches the gradient
+    for i := 0; i < len(r.Hessian); i++ {
+      if len(r.Hessian[i]) != len(r.Hessian) {
+        return fmt.Errorf("invalid json scalar representation")
+      }
+    }
     if len(r.Derivative) != 0 && len(r.Hessian) != 0 {
-      if len(r.Derivative) != len(r.Derivative) {
+      if len(r.Derivative) != len(r.Hessian) {
         return fmt.Errorf("invalid json scalar representation")
       }
       obj.Alloc(len(r.Derivative), 2)
@@ -398,7 +404,9 @@ func (obj *Real32) UnmarshalJSON(data []byte) error {
       obj.Derivative = r.Derivative
     } else
     if len(r.Derivative) == 0 && len(r.Hessian) != 0 {
-      obj.Alloc(len(r.Derivative), 2)
+      // first derivatives are omitted by MarshalJSON if all of
+      // them are zero
+      obj.Alloc(len(r.Hessian), 2)
       obj.Hessian = r.Hessian
     }
     return nil
